@@ -18,7 +18,11 @@ for i, x in enumerate(a):
         confirm = False
 wt = "/tmp/wt/%s" % prop
 src = "%s/_seed/%s" % (wt, k)
-dst = os.path.join(ROOT, "seeded", "%s-%s" % (prop, k))
+dstname = "%s-%s" % (prop, k)
+for i, x in enumerate(a):
+    if x == "--as":
+        dstname = a[i + 1]
+dst = os.path.join(ROOT, "seeded", dstname)
 meta_path = os.path.join(dst, "meta.json")
 meta = json.load(open(meta_path)) if os.path.exists(meta_path) else {}
 if confirm and os.path.isdir(src):
@@ -48,7 +52,7 @@ try:
         q = subprocess.run([os.path.join(ROOT, "check"), c, "--tier", tier], capture_output=True, text=True, cwd=ROOT)
         lines = [l for l in q.stdout.splitlines() if l.startswith(("VIOLATION", "  sig=", "KNOWN"))]
         res["%s/%s" % (c, tier)] = dict(rc=q.returncode, seconds=round(time.time() - t), sigs=[l.strip()[:200] for l in lines if "sig=" in l][:6])
-        print("check %s --tier %s on seed %s-%s -> rc=%d" % (c, tier, prop, k, q.returncode))
+        print("check %s --tier %s on seed %s -> rc=%d" % (c, tier, dstname, q.returncode))
         for l in lines[:6]:
             print("   ", l[:220])
         if q.returncode == 2:
